@@ -43,3 +43,39 @@ package reporting
 // line, the caret column d computed by calculateDisplayColumn points, inside the string r returned by
 // truncateString, at the very byte of the original line that was reported.
 //@ lemma c19_caret_on_reported_byte C19: forall s string, M int, pos int :: M > 3 && len(s) > M && 1 <= pos && pos <= len(s) ==> 1 <= len(c19pre(c19lo(len(s), M, pos-1))) + (pos-1 - c19lo(len(s), M, pos-1)) + 1 && len(c19pre(c19lo(len(s), M, pos-1))) + (pos-1 - c19lo(len(s), M, pos-1)) + 1 <= len(c19pre(c19lo(len(s), M, pos-1)) + s[c19lo(len(s), M, pos-1):c19hi(len(s), M, pos-1)] + c19suf(c19hi(len(s), M, pos-1), len(s))) && (c19pre(c19lo(len(s), M, pos-1)) + s[c19lo(len(s), M, pos-1):c19hi(len(s), M, pos-1)] + c19suf(c19hi(len(s), M, pos-1), len(s)))[len(c19pre(c19lo(len(s), M, pos-1))) + (pos-1 - c19lo(len(s), M, pos-1))] == s[pos-1]
+
+// ---- Reporter ----------------------------------------------------------------------------------
+
+// Representation invariant of a Reporter built by NewReporter: the pass and the line cache exist, and every
+// cached entry is the line split of the file as the pass reads it (files do not change during an analysis).
+//@ pure func fileText(p *analysis.Pass, name string) string = string(p.ReadFile(name))
+//@ ghost func byteString(b []byte) string
+//@ pure func reporterOK(r *Reporter) bool = r != nil && r.pass != nil && r.lineCache != nil
+
+//@ func NewReporter
+//@   props C19 C10 C17
+//@   requires pass != nil
+//@   ensures reporterOK(result) && result.pass == pass && result.ignoreSet == ignoreSet
+//@   fresh
+//@   assigns nothing
+
+//@ func Reporter.getFileLines
+//@   props C19 C10
+//@   requires reporterOK(r)
+//@   assigns r.lineCache[all]
+//@   ensures reporterOK(r)
+
+// The window of source lines shown around line lineNum (1-based): lines start+1 .. end+1 of the file, clamped to
+// the file, each numbered with its own 1-based line number; empty when the file has fewer lines than expected.
+//@ func Reporter.readSourceLines
+//@   props C19 C10
+//@   requires reporterOK(r) && before >= 0 && after >= 0
+//@   let start = lineNum-before-1 < 0 ? 0 : lineNum-before-1
+//@   ensures reporterOK(r)
+//@   ensures len(result.content) == len(result.lineNumbers)
+//@   ensures forall j int :: 0 <= j && j < len(result.lineNumbers) ==> result.lineNumbers[j] == start + j + 1
+//@   ensures len(result.content) <= before + after + 1
+//@   assigns r.lineCache[all]
+//@   loop 1 invariant start <= i && len(result.content) == i - start && len(result.lineNumbers) == i - start
+//@   loop 1 invariant forall j int :: 0 <= j && j < len(result.lineNumbers) ==> result.lineNumbers[j] == start + j + 1
+//@   loop 1 invariant end < len(lines) && reporterOK(r) && (i <= end + 1 || i == start)
